@@ -71,15 +71,24 @@ def run_job(pid, job, tier, h):
     env.update(job.env)
     t0 = time.time()
     summary = None
+    import signal
+    proc = subprocess.Popen([exe], env=env, stdout=subprocess.PIPE, stderr=subprocess.PIPE, text=True, start_new_session=True)
     try:
-        p = subprocess.run([exe], env=env, stdout=subprocess.PIPE, stderr=subprocess.PIPE, text=True, timeout=budget * 3 + 120)
-        for line in p.stdout.splitlines():
+        so, se = proc.communicate(timeout=budget + 90)
+        for line in so.splitlines():
             if line.startswith("SUMMARY "):
                 summary = json.loads(line[8:])
-        stderr_tail = p.stderr[-2000:]
+        stderr_tail = se[-2000:]
     except subprocess.TimeoutExpired:
-        subprocess.run(["pkill", "-f", exe])
-        stderr_tail = "driver timeout"
+        stderr_tail = "driver timeout: run exceeded budget+90s"
+    try:
+        os.killpg(proc.pid, signal.SIGKILL)     # no stray path processes survive the job
+    except ProcessLookupError:
+        pass
+    try:
+        proc.communicate(timeout=10)
+    except Exception:
+        pass
     wall = time.time() - t0
     recs = []
     with open(out) as f:
